@@ -81,7 +81,25 @@ pub fn gen_message(rng: &mut Rng, len: usize) -> Vec<u8> {
     for seg in 0..nseg {
         let l = if seg + 1 == nseg { left } else { rng.range(0, left) };
         left -= l;
-        let kind = rng.below(9);
+        let kind = rng.below(10);
+        if kind == 9 {
+            // well-formed UTF-8 text (meaningful with ECI 26; otherwise just high bytes)
+            let mut n = 0;
+            while n < l {
+                let cp: u32 = match rng.below(4) {
+                    0 => rng.range(0x20, 0x7E) as u32,
+                    1 => rng.range(0x80, 0x7FF) as u32,
+                    2 => rng.range(0x800, 0xD7FF) as u32,
+                    _ => rng.range(0x10000, 0x1FFFF) as u32,
+                };
+                let ch = char::from_u32(cp).unwrap_or('?');
+                let mut buf = [0u8; 4];
+                let b = ch.encode_utf8(&mut buf).as_bytes();
+                out.extend_from_slice(b);
+                n += b.len();
+            }
+            continue;
+        }
         for _ in 0..l {
             let b = match kind {
                 0 => *rng.pick(ALPHA_DIGITS),
@@ -803,7 +821,7 @@ fn geometry_fault(rng: &mut Rng, s: &SizeInfo, faults: &mut Vec<Fault>) {
 
 /// The medium replaces the whole pixel buffer (density-1 limit at pixel level).
 fn replace_fault(ctx: &Ctx, rng: &mut Rng, faults: &mut Vec<Fault>) {
-    let mode = rng.below(10);
+    let mode = rng.below(11);
     let s = &SIZES[rng.below(N_SIZES)];
     let (h, w) = (s.rows, s.cols);
     match mode {
@@ -838,12 +856,42 @@ fn replace_fault(ctx: &Ctx, rng: &mut Rng, faults: &mut Vec<Fault>) {
             };
             faults.push(Fault::new("geo_replace", Op::GeoReplace { bits, w: w as u32 }));
         }
-        _ => {
-            // arbitrary dimensions
+        8 => {
+            // arbitrary small dimensions
             let hh = rng.range(0, 30);
             let ww = rng.range(0, 40);
             let len = if rng.chance(1, 4) { hh * ww + rng.range(0, 5) } else { hh * ww };
             let bits: Vec<bool> = (0..len).map(|_| rng.bit()).collect();
+            faults.push(Fault::new("geo_replace", Op::GeoReplace { bits, w: ww as u32 }));
+        }
+        _ => {
+            // large / structured dimensions: catalogue dimensions shifted by multiples of 256, powers of two
+            // and their neighbours, catalogue heights with some bits cleared or set
+            let o = &SIZES[rng.below(N_SIZES)];
+            let ww = match rng.below(5) {
+                0 => o.cols + 256 * rng.range(1, 20),
+                1 => (1usize << rng.range(4, 12)) + rng.range(0, 2) - 1,
+                2 => o.cols * rng.range(2, 9),
+                3 => rng.range(145, 5000),
+                _ => o.cols,
+            };
+            let hh = match rng.below(5) {
+                0 => o.rows,
+                1 => o.rows & !(1usize << rng.range(1, 7)),
+                2 => o.rows | (1usize << rng.range(0, 3)),
+                3 => rng.range(1, 300),
+                _ => o.rows + 256,
+            };
+            let hh = hh.min(200_000 / ww.max(1)).max(1);
+            let len = if rng.chance(1, 6) { hh * ww + rng.range(1, ww.max(2) - 1) } else { hh * ww };
+            let fill = rng.below(3);
+            let bits: Vec<bool> = (0..len)
+                .map(|j| match fill {
+                    0 => false,
+                    1 => (j % ww.max(1)) % 2 == 0 || j % ww.max(1) == 0,
+                    _ => rng.bit(),
+                })
+                .collect();
             faults.push(Fault::new("geo_replace", Op::GeoReplace { bits, w: ww as u32 }));
         }
     }
